@@ -8,8 +8,8 @@
                   were added in, and whatever the CPU's byte order is;
      sizes      : every configurable table size is a prime >= factor * maxEndpoints.
    The boolean oracle ok_case is applied to the implementation's own output. *)
-From Coq Require Import List NArith Arith Bool.
-From Verif.C33 Require Import Model.
+From Coq Require Import List NArith ZArith Arith Bool FMapPositive.
+From Verif.C33 Require Import Model Wrap ArithModel.
 Import ListNotations.
 Open Scope N_scope.
 
@@ -173,9 +173,61 @@ Definition ok_size (env : size_env) (n : N) (r : size_result) : bool :=
     end
   else true.
 
+(* one backend's preference list, observed through ConsistentHash.permutation *)
+Inductive perm_obs :=
+| PErr                      (* permutation returned an error *)
+| PPanic
+| PList (l : list Z).
+
+Record perm_case := {
+  p_m : N; p_bo : byte_order; p_cpu : endian;
+  p_arith : arith;            (* integer types of the arithmetic, as found in the source by the translator *)
+  p_name : bytes;
+  p_obs : perm_obs
+}.
+
+(* Maglev's requirement on a preference list: it lists every slot 0..m-1 exactly once *)
+Fixpoint mark_all (l : list Z) (seen : PositiveMap.t unit) (m : Z) : bool :=
+  match l with
+  | [] => true
+  | z :: r =>
+      if (0 <=? z)%Z && (z <? m)%Z then
+        let k := key (Z.to_N z) in
+        match PositiveMap.find k seen with
+        | Some _ => false
+        | None => mark_all r (PositiveMap.add k tt seen) m
+        end
+      else false
+  end.
+Definition is_perm_of_range (m : N) (l : list Z) : bool :=
+  (len l =? m) && mark_all l (PositiveMap.empty unit) (Z.of_N m).
+
+Fixpoint list_Z_eqb (a b : list Z) : bool :=
+  match a, b with
+  | [], [] => true
+  | x :: a', y :: b' => Z.eqb x y && list_Z_eqb a' b'
+  | _, _ => false
+  end.
+
+Definition perm_agree (p : perm_case) : bool :=
+  match permutation_a (p_arith p) (p_bo p) (p_cpu p) fnv32 fnv32 (p_m p) (p_name p), p_obs p with
+  | None, PErr => true
+  | Some l, PList l' => list_Z_eqb l l'
+  | _, _ => false
+  end.
+
+Definition ok_perm_case (p : perm_case) : bool :=
+  if is_prime (p_m p) then
+    match p_obs p with
+    | PList l => is_perm_of_range (p_m p) l
+    | _ => false
+    end
+  else true.
+
 Inductive case :=
 | CLut (c : lut_case)
-| CSizes (l : list (N * size_result)).
+| CSizes (l : list (N * size_result))
+| CPerm (p : perm_case).
 
 (* cross_cpu = false leaves out the byte-order clause; used only to classify a failing case *)
 Definition check_case_with (cross_cpu : bool) (env : size_env) (c : case) : bool * bool :=
@@ -186,6 +238,7 @@ Definition check_case_with (cross_cpu : bool) (env : size_env) (c : case) : bool
       let mo := model_other_cpu c in
       (lut_agree_with ms mo c,
        if is_prime (c_m c) then ok_lut_same_cpu c && (negb cross_cpu || cross_cpu_ok ms mo c) else true)
+  | CPerm p => (perm_agree p, ok_perm_case p)
   | CSizes l =>
       (let sz := lut_size (e_table env) (e_limit env) (e_factor env) in
        forallb (fun p => size_eqb (sz (fst p)) (snd p)) l,
@@ -199,4 +252,5 @@ Definition check_case_same_cpu (env : size_env) (c : case) : bool * bool :=
   match c with
   | CLut c => (true, ok_lut_case false c)
   | CSizes _ => (true, snd (check_case_with false env c))
+  | CPerm p => (true, ok_perm_case p)
   end.
